@@ -234,3 +234,99 @@ func VerifFailingEncode(kind int, valid interface{}) error {
 		return err
 	}
 }
+
+// ---------------------------------------------------------------------------------------------- very long arrays
+
+// VerifBigArrayCase: a body with one array of n short elements (around and beyond 2*MaxUint16 = 131070), encoded
+// and decoded with the real code (oracle only: about a megabyte on the wire).
+//   kinds: DeleteTopicsRequest DeleteGroupsRequest DescribeGroupsRequest SaslHandshakeResponse
+//          ConsumerGroupMemberMetadata (string arrays), ConsumerGroupMemberAssignment OffsetFetchRequest (int32 arrays),
+//          ListPartitionReassignmentsRequest (compact int32 array), CreatePartitionsRequest (nullable array of int32 arrays)
+func VerifBigArrayCase(kind string, n int) (wire int, diff string) {
+	strs := make([]string, n)
+	for i := range strs {
+		strs[i] = string([]byte{'a' + byte(i%26), 'a' + byte(i/26%26)})
+	}
+	ints := make([]int32, n)
+	for i := range ints {
+		ints[i] = int32(i)
+	}
+	var v, fresh interface{}
+	var ver int16
+	switch kind {
+	case "DeleteTopicsRequest":
+		v, fresh = &DeleteTopicsRequest{Topics: strs, Timeout: time.Second}, &DeleteTopicsRequest{}
+	case "DeleteGroupsRequest":
+		v, fresh = &DeleteGroupsRequest{Groups: strs}, &DeleteGroupsRequest{}
+	case "DescribeGroupsRequest":
+		v, fresh = &DescribeGroupsRequest{Groups: strs}, &DescribeGroupsRequest{}
+	case "SaslHandshakeResponse":
+		v, fresh = &SaslHandshakeResponse{EnabledMechanisms: strs}, &SaslHandshakeResponse{}
+	case "ConsumerGroupMemberMetadata":
+		v, fresh = &ConsumerGroupMemberMetadata{Version: 1, Topics: strs, UserData: []byte{1}}, &ConsumerGroupMemberMetadata{}
+	case "ConsumerGroupMemberAssignment":
+		v, fresh = &ConsumerGroupMemberAssignment{Topics: map[string][]int32{"t": ints}}, &ConsumerGroupMemberAssignment{}
+	case "OffsetFetchRequest":
+		ver = 1
+		v, fresh = &OffsetFetchRequest{Version: 1, ConsumerGroup: "g", partitions: map[string][]int32{"t": ints}}, &OffsetFetchRequest{}
+	case "ListPartitionReassignmentsRequest":
+		r := &ListPartitionReassignmentsRequest{TimeoutMs: 5}
+		r.blocks = map[string][]int32{"t": ints}
+		v, fresh = r, &ListPartitionReassignmentsRequest{}
+	case "CreatePartitionsRequest":
+		assign := make([][]int32, n)
+		for i := range assign {
+			assign[i] = []int32{int32(i)}
+		}
+		v = &CreatePartitionsRequest{TopicPartitions: map[string]*TopicPartition{"t": {Count: int32(n), Assignment: assign}}}
+		fresh = &CreatePartitionsRequest{}
+	default:
+		return 0, "unknown kind"
+	}
+	buf, err := encode(v.(encoder), nil)
+	if err != nil {
+		return 0, "rejected"
+	}
+	wire = len(buf)
+	if err := VerifDecodeBody(buf, fresh, ver); err != nil {
+		return wire, "decode: " + err.Error()
+	}
+	again, err := encode(fresh.(encoder), nil)
+	if err != nil {
+		return wire, "re-encode: " + err.Error()
+	}
+	if !bytes.Equal(buf, again) {
+		return wire, fmt.Sprintf("re-encoded bytes differ (%d vs %d)", len(again), len(buf))
+	}
+	if d := VerifEqual(fresh, reflectFreshDecode(buf, kind, ver)); d != "" {
+		return wire, "second decode differs at " + d
+	}
+	return wire, ""
+}
+
+// a second, independent decode of the same bytes (decoding is deterministic)
+func reflectFreshDecode(buf []byte, kind string, ver int16) interface{} {
+	var f interface{}
+	switch kind {
+	case "DeleteTopicsRequest":
+		f = &DeleteTopicsRequest{}
+	case "DeleteGroupsRequest":
+		f = &DeleteGroupsRequest{}
+	case "DescribeGroupsRequest":
+		f = &DescribeGroupsRequest{}
+	case "SaslHandshakeResponse":
+		f = &SaslHandshakeResponse{}
+	case "ConsumerGroupMemberMetadata":
+		f = &ConsumerGroupMemberMetadata{}
+	case "ConsumerGroupMemberAssignment":
+		f = &ConsumerGroupMemberAssignment{}
+	case "OffsetFetchRequest":
+		f = &OffsetFetchRequest{}
+	case "ListPartitionReassignmentsRequest":
+		f = &ListPartitionReassignmentsRequest{}
+	default:
+		f = &CreatePartitionsRequest{}
+	}
+	_ = VerifDecodeBody(buf, f, ver)
+	return f
+}
